@@ -200,3 +200,126 @@ def _refl(h):
     p1, ps1, d1 = one_cmd_program(h, "a", "Sgate", 2, (0,))
     out = h.call(pu.program_equivalence, p1, p1)
     h.ensure("reflexive", out.returned and out.value is True)
+
+
+# =====================================================================================
+# program_equivalence on programs of SEVERAL commands: the labelled graphs handed to networkx.
+# is_isomorphic is replaced by a recorder; contract (shape-bounded: the circuits are fixed shapes of 2-3 commands of
+# pairwise different classes, every parameter and every inverse flag symbolic):
+#   * each circuit is handed over as a graph with one node per command; the node of command c carries c's OWN class
+#     name, c's own inverse flag, c's own evaluated parameters and c's own modes (ordered for an order-sensitive
+#     gate unless it is symmetric within the tolerances the code documents, sorted otherwise);
+#   * the edges are those of the dependency graph of the circuit (list_to_DAG, under contract for C04);
+#   * the verdict of networkx is returned unchanged.
+# With the library contract of is_isomorphic this gives: reported equivalent ==> a dependency-preserving bijection of
+# the commands that preserves class, inverse flag, modes and (within atol) parameters.
+# =====================================================================================
+MULTI = [
+    [("Sgate", 2, (0,)), ("Rgate", 1, (0,))],
+    [("Sgate", 2, (0,)), ("Rgate", 1, (1,))],
+    [("Rgate", 1, (1,)), ("Sgate", 2, (0,)), ("BSgate", 2, (0, 1))],
+    [("BSgate", 2, (1, 0)), ("CXgate", 1, (1, 2)), ("Sgate", 2, (2,))],
+    [("S2gate", 2, (0, 2)), ("Rgate", 1, (1,)), ("CXgate", 1, (2, 1))],
+    [("CXgate", 1, (0, 1)), ("BSgate", 2, (1, 2)), ("S2gate", 2, (2, 0))],
+    [("Sgate", 2, (1,)), ("MeasureFock", 0, (1,)), ("Rgate", 1, (0,))],
+]
+
+
+def multi_program(h, tag, spec, nmodes=3):
+    ops, pu, prg = h.module(OPS), h.module(PU), h.module(P)
+    prog = prg.Program(nmodes)
+    truth = {}
+    for k, (cls, npar, modes) in enumerate(spec):
+        ps = [h.real(f"{tag}{k}_p{j}") for j in range(npar)]
+        op = getattr(ops, cls)(*ps)
+        dg = False
+        if hasattr(op, "dagger"):
+            dg = h.bool(f"{tag}{k}_dagger")
+            op.dagger = dg
+        prog.circuit.append(pu.Command(op, [prog.reg_refs[m] for m in modes]))
+        truth[cls] = (ps, dg, modes, k)
+    return prog, truth
+
+
+def _multi(ca, cb):
+    def fn(h):
+        import numpy as _np
+        pu = h.module(PU)
+        pa, ta = multi_program(h, "a", MULTI[ca])
+        pb, tb = multi_program(h, "b", MULTI[cb])
+        seen = []
+
+        def recorder(G1, G2, node_match=None, **kw):
+            seen.append((G1, G2, node_match))
+            return True
+        with h.stubbed(pu.nx, "is_isomorphic", recorder):
+            out = h.call(pu.program_equivalence, pa, pb)
+        h.ensure("no-exception", out.returned, bounded_shape=True)
+        if not out.returned or len(seen) != 1:
+            h.ensure("one-isomorphism-query-decides", False, bounded_shape=True)
+            return
+        h.ensure("verdict-of-the-isomorphism-query-returned", out.value is True, bounded_shape=True)
+        for side, G, truth, prog in (("a", seen[0][0], ta, pa), ("b", seen[0][1], tb, pb)):
+            nodes = dict(G.nodes(data=True))
+            h.ensure(f"{side}.one-node-per-command", len(nodes) == len(truth), bounded_shape=True)
+            by_name = {}
+            for n, a in nodes.items():
+                by_name.setdefault(a.get("name"), []).append(n)
+            idx = {}
+            for cls, (ps, dg, modes, k) in truth.items():
+                ok = len(by_name.get(cls, [])) == 1
+                h.ensure(f"{side}.{cls}.exactly-one-node-carries-its-class-name", ok, bounded_shape=True)
+                if not ok:
+                    continue
+                n = by_name[cls][0]
+                idx[k] = n
+                a = nodes[n]
+                h.ensure(f"{side}.{cls}.node-carries-its-own-inverse-flag", eqv(a.get("dagger"), dg), bounded_shape=True)
+                pv = list(a.get("p", []))
+                h.ensure(f"{side}.{cls}.node-carries-its-own-parameter-count", len(pv) == len(ps), bounded_shape=True)
+                for j, (x, y) in enumerate(zip(pv, ps)):
+                    h.ensure(f"{side}.{cls}.node-carries-its-own-parameter[{j}]", eqv(x, y), bounded_shape=True)
+                w = list(a.get("w", []))
+                if w == list(modes):
+                    h.ensure(f"{side}.{cls}.node-carries-its-own-modes", True, bounded_shape=True)
+                else:
+                    h.ensure(f"{side}.{cls}.node-carries-its-own-modes", w == sorted(modes), bounded_shape=True)
+                    if cls == "CXgate":
+                        h.ensure(f"{side}.{cls}.order-dropped-only-for-a-trivial-gate", abs(ps[0]) <= 1e-8, bounded_shape=True)
+                    if cls == "BSgate":
+                        h.ensure(f"{side}.{cls}.order-dropped-only-for-a-symmetric-gate", abs(ps[1] % _np.pi - _np.pi / 2) <= 1e-4, bounded_shape=True)
+            # edges = dependencies of the circuit (consecutive commands on a shared mode)
+            want = set()
+            cmds = prog.circuit
+            for i in range(len(cmds)):
+                for j in range(i + 1, len(cmds)):
+                    shared = set(r.ind for r in cmds[i].reg) & set(r.ind for r in cmds[j].reg)
+                    between = set().union(*[set(r.ind for r in cmds[m].reg) for m in range(i + 1, j)]) if j > i + 1 else set()
+                    if shared - between:
+                        want.add((i, j))
+            if len(idx) == len(truth):
+                got = set(G.edges())
+                h.ensure(f"{side}.edges-are-the-dependencies-of-the-circuit", got == {(idx[i], idx[j]) for i, j in want}, bounded_shape=True)
+        # node_match: what a match implies
+        nm = seen[0][2]
+        x = {"name": "Sgate", "dagger": h.bool("m1_dagger"), "w": [0], "p": [h.real("m1_p0"), h.real("m1_p1")]}
+        y = {"name": "Sgate", "dagger": h.bool("m2_dagger"), "w": [0], "p": [h.real("m2_p0"), h.real("m2_p1")]}
+        res = h.call(nm, x, y)
+        h.ensure("node_match.no-exception", res.returned, bounded_shape=True)
+        if res.returned:
+            r = res.value
+            h.ensure("node_match=>same-inverse-flag", Implies(r, eqv(x["dagger"], y["dagger"])), bounded_shape=True)
+            h.ensure("node_match=>parameters-within-tolerance", Implies(r, And(abs(x["p"][0] - y["p"][0]) <= 1e-6, abs(x["p"][1] - y["p"][1]) <= 1e-6)), bounded_shape=True)
+            for key, val in (("name", "Rgate"), ("w", [1])):
+                z = dict(y)
+                z[key] = val
+                r2 = h.call(nm, x, z)
+                h.ensure(f"node_match=>same-{key}", r2.returned and (r2.value is False or Not(r2.value)), bounded_shape=True)
+    fn.__name__ = ""
+    return fn
+
+
+for _ca, _cb in [(0, 0), (1, 1), (2, 2), (3, 3), (4, 4), (5, 5), (6, 6), (0, 1), (2, 3), (4, 5)]:
+    PROOFS.append(Proof("C18", PU + ":program_equivalence", _multi(_ca, _cb),
+                        name=f"program_equivalence/labelled-graph/circuit{_ca}-vs-circuit{_cb}",
+                        native="from native.c18_eq import replay; replay('multi', OBLIGATION, I)"))
